@@ -69,7 +69,37 @@ Example C19_example_panic :
   ho_res ho = HPanicHook "g1" /\ ho_dyn ho = poisoned /\ length (ho_trace ho) = 3.
 Proof. vm_compute. repeat split. Qed.
 
+(* The degenerate abandonment: the future of a call is created and dropped without a single poll.  An
+   `async fn` body starts at its first poll, so nothing has happened: no hook ran, the dynamic wrapper
+   (only borrowed by handle) is exactly as it was, and a typed machine (moved into its future) is gone
+   together with its context -- it is never handed back in some other state. *)
+Theorem C19_future_dropped_before_its_first_poll_has_no_effect :
+  forall (m : machine) (feat : bool) (h : holder) (e : ident) (pl : option nat),
+  let ob := step (codegen m feat) h (OUnpolled e pl) in
+  o_trace ob = [] /\ o_pend ob = 0 /\
+  (forall d, h = HD d -> o_holder ob = h /\ o_cdrops ob = []) /\
+  (forall tm, h = HT tm -> (o_holder ob = h /\ o_cdrops ob = []) \/
+                           (o_res ob = ORabandoned /\ o_holder ob = HNone /\ o_cdrops ob = [tm_ctx tm])).
+Proof.
+  intros m feat h e pl. unfold step. destruct h as [|tm|d]; cbn [step_core].
+  - cbn. repeat split; intros ? E; discriminate E.
+  - assert (Keep : filter (fun c => negb (nat_mem c (holder_ctx (HT tm)))) (holder_ctx (HT tm)) = []).
+    { cbn. rewrite Nat.eqb_refl. reflexivity. }
+    destruct (methods_of (codegen m feat) (tm_state tm) (to_snake_case e)) as [|gm [|gm2 r]];
+      [| destruct (gm_async gm) |]; cbn [o_trace o_pend o_holder o_cdrops o_res];
+      (split; [reflexivity|]); (split; [reflexivity|]); (split; [intros ? E; discriminate E|]);
+      intros tm' E; inversion E; subst tm'; try (left; split; [reflexivity|exact Keep]).
+    right. repeat split; reflexivity.
+  - assert (Keep : filter (fun c => negb (nat_mem c (holder_ctx (HD d)))) (holder_ctx (HD d)) = []).
+    { destruct d as [[tm|]]; cbn; rewrite ?Nat.eqb_refl; reflexivity. }
+    destruct (gr_dyn (codegen m feat)) as [gd|]; [destruct (gir_async (codegen m feat))|];
+      cbn [o_trace o_pend o_holder o_cdrops o_res];
+      (split; [reflexivity|]); (split; [reflexivity|]); (split; [|intros ? E; discriminate E]);
+      intros d' E; inversion E; subst d'; (split; [reflexivity|exact Keep]).
+Qed.
+
 Print Assumptions C19_outcomes_of_handle.
+Print Assumptions C19_future_dropped_before_its_first_poll_has_no_effect.
 Print Assumptions C19_poisoned_wrapper_is_unavailable.
 Print Assumptions C19_completed_dispatch_stays_in_a_declared_state.
 Print Assumptions C19_dropped_handle_future_poisons_or_is_the_complete_call.
